@@ -25,6 +25,7 @@ func TestVerif_C17_LongEscapes(t *testing.T) {
 	n := m.N(1500, 60000)
 	m.Require("evaluations", int64(n))
 	m.Require("bytes_through_reader", int64(n)*4096)
+	m.Require("documents_of_a_megabyte_or_more", 5)
 	unitSets := [][]string{
 		{`\"`, ` // `},
 		{`\"`, `/*`, `*/`},
@@ -38,6 +39,10 @@ func TestVerif_C17_LongEscapes(t *testing.T) {
 		m.Case()
 		units := unitSets[r.Intn(len(unitSets))]
 		size := r.Pick(4000, 4096, 4200, 8192, 8300, 16384, 16500, 33000, 49152)
+		if i%(n/6) == 1 {
+			size = r.Pick(1<<20, 4<<20+17, 5<<20, 9<<20) // a few documents of megabytes: no size is special
+			m.Count("documents_of_a_megabyte_or_more", 1)
+		}
 		phase := i % 16
 		var sb bytes.Buffer
 		sb.WriteString(`{"pad":"`)
@@ -60,8 +65,17 @@ func TestVerif_C17_LongEscapes(t *testing.T) {
 			decorated = append(d, []byte(" // end without newline \\\"")...)
 		}
 		mode := r.Intn(5)
+		big := size >= 1<<20
+		if big {
+			// the scanner re-examines a pending literal after every transport read: with reads of a few bytes a literal of
+			// megabytes costs (size^2 / read size) steps — a cost of small reads, not a question of meaning; megabyte documents
+			// are delivered whole or in reads of up to 64 KiB
+			mode = []int{0, 5}[i%2]
+		}
 		var rd io.Reader
 		switch mode {
+		case 5:
+			rd = &vnet.CutReader{Data: decorated, Cut: len(decorated), Seg: vnet.SegRandom(r.Split(), 65536), DataWithErr: true}
 		case 0:
 			rd = bytes.NewReader(decorated)
 		case 1:
@@ -82,7 +96,35 @@ func TestVerif_C17_LongEscapes(t *testing.T) {
 		m.Count("bytes_through_reader", int64(len(decorated)))
 		rep := map[string]interface{}{"case": i, "size": len(decorated), "phase": phase, "mode": mode, "units": units, "commented": commented}
 		m.Guard("json.longescapes", nil, func() {
-			out, err := ioutil.ReadAll(ojson.NewJsonPlusReader(rd))
+			// the output side: drained by ReadAll, or a few small Reads first and then io.Copy (which uses WriteTo when the
+			// reader has one), or through a 1-byte-at-a-time consumer
+			jr := ojson.NewJsonPlusReader(rd)
+			var out []byte
+			var err error
+			consume := i % 4
+			if big && consume == 2 {
+				consume = 1
+			}
+			switch consume {
+			case 1:
+				head := make([]byte, r.Pick(1, 2, 7, 64))
+				var k int
+				k, err = io.ReadFull(jr, head)
+				out = append(out, head[:k]...)
+				if err == nil {
+					var rest bytes.Buffer
+					_, err = io.Copy(&rest, jr)
+					out = append(out, rest.Bytes()...)
+				} else if err == io.ErrUnexpectedEOF || err == io.EOF {
+					err = nil
+				}
+			case 2:
+				var rest bytes.Buffer
+				_, err = io.Copy(&rest, iotest1{jr})
+				out = rest.Bytes()
+			default:
+				out, err = ioutil.ReadAll(jr)
+			}
 			if err != nil {
 				m.Violationf("c17:reader-error:long-string-escapes", rep, "reader failed on a valid document: %v", err)
 				return
@@ -107,4 +149,14 @@ func TestVerif_C17_LongEscapes(t *testing.T) {
 			}
 		})
 	})
+}
+
+// iotest1 hands the consumer one byte per Read (and hides any WriteTo of the wrapped reader).
+type iotest1 struct{ r io.Reader }
+
+func (o iotest1) Read(p []byte) (int, error) {
+	if len(p) == 0 {
+		return 0, nil
+	}
+	return o.r.Read(p[:1])
 }
